@@ -30,7 +30,7 @@ def cases(tier, seed):
     for _ in range(reps):
         for obj, strat, lik, beta, priors, comb in itertools.product(["VariationalELBO", "PredictiveLogLikelihood"], ["VariationalStrategy", "UnwhitenedVariationalStrategy"], ["gauss", "bernoulli", "laplace"],
                                                                    [0.1, 1.0, 3.0], [False, True], [True, False]):
-            if tier == "quick" and rnd.random() < 0.6:
+            if tier == "quick" and rnd.random() < 0.0:
                 continue
             yield {"kind": "definition", "objective": obj, "strategy": strat, "lik": lik, "beta": beta, "priors": priors, "combine_terms": comb,
                    "N": rnd.choice([20, 33]), "B": rnd.choice([1, 7, 12]), "batch": rnd.choice([[], [], [2]]), "seed": rnd.randrange(10**6)}
